@@ -48,6 +48,51 @@ inductive Matches : Re → Pos → Pos → Prop
   | questSome {r : Re} {g : Bool} {p q : Pos} : Matches r p q → Matches (.quest r g) p q
   | group {i : Nat} {r : Re} {p q : Pos} : Matches r p q → Matches (.group i r) p q
 
+/-- The match relation with the capture table threaded through, as the engine does: a group
+records `(index, start offset, end offset)` on top of the captures of its body; later entries
+override earlier ones (`Caps.get`). Priorities and greediness are still not specified: this relation
+says which `(end, captures)` pairs are possible, not which one is reported. -/
+inductive MatchesC : Re → Pos → Caps → Pos → Caps → Prop
+  | empty (p : Pos) (c : Caps) : MatchesC .empty p c p c
+  | lit {p : Pos} {c : Caps} {r w : Nat} :
+      decodeRune p.after = some (r, w) → MatchesC (.lit r) p c (p.advance w) c
+  | cls {p : Pos} {c : Caps} {rs : List (Nat × Nat)} {r w : Nat} :
+      decodeRune p.after = some (r, w) → inRanges r rs = true → MatchesC (.cls rs) p c (p.advance w) c
+  | anyNL {p : Pos} {c : Caps} {r w : Nat} :
+      decodeRune p.after = some (r, w) → MatchesC .anyNL p c (p.advance w) c
+  | anyNoNL {p : Pos} {c : Caps} {r w : Nat} :
+      decodeRune p.after = some (r, w) → r ≠ 10 → MatchesC .anyNoNL p c (p.advance w) c
+  | bol {p : Pos} {c : Caps} : p.atBol = true → MatchesC .bol p c p c
+  | eol {p : Pos} {c : Caps} : p.atEol = true → MatchesC .eol p c p c
+  | bot {p : Pos} {c : Caps} : p.atBot = true → MatchesC .bot p c p c
+  | eot {p : Pos} {c : Caps} : p.atEot = true → MatchesC .eot p c p c
+  | wordB {p : Pos} {c : Caps} : atWordBoundary p = true → MatchesC .wordB p c p c
+  | noWordB {p : Pos} {c : Caps} : atWordBoundary p = false → MatchesC .noWordB p c p c
+  | cat {a b : Re} {p q r : Pos} {c c1 c2 : Caps} :
+      MatchesC a p c q c1 → MatchesC b q c1 r c2 → MatchesC (.cat a b) p c r c2
+  | altL {a b : Re} {p q : Pos} {c c1 : Caps} : MatchesC a p c q c1 → MatchesC (.alt a b) p c q c1
+  | altR {a b : Re} {p q : Pos} {c c1 : Caps} : MatchesC b p c q c1 → MatchesC (.alt a b) p c q c1
+  | starNil {r : Re} {g : Bool} (p : Pos) (c : Caps) : MatchesC (.star r g) p c p c
+  | starCons {r : Re} {g : Bool} {p q s : Pos} {c c1 c2 : Caps} :
+      MatchesC r p c q c1 → MatchesC (.star r g) q c1 s c2 → MatchesC (.star r g) p c s c2
+  | plus {r : Re} {g : Bool} {p q s : Pos} {c c1 c2 : Caps} :
+      MatchesC r p c q c1 → MatchesC (.star r g) q c1 s c2 → MatchesC (.plus r g) p c s c2
+  | questNil {r : Re} {g : Bool} (p : Pos) (c : Caps) : MatchesC (.quest r g) p c p c
+  | questSome {r : Re} {g : Bool} {p q : Pos} {c c1 : Caps} :
+      MatchesC r p c q c1 → MatchesC (.quest r g) p c q c1
+  | group {i : Nat} {r : Re} {p q : Pos} {c c1 : Caps} :
+      MatchesC r p c q c1 → MatchesC (.group i r) p c q ((i, p.off, q.off) :: c1)
+
+/-- the regex contains no capture group -/
+def Re.noGroup : Re → Bool
+  | .group _ _ => false
+  | .cat a b => a.noGroup && b.noGroup
+  | .alt a b => a.noGroup && b.noGroup
+  | .star r _ => r.noGroup
+  | .plus r _ => r.noGroup
+  | .quest r _ => r.noGroup
+  | _ => true
+
 /-- `q` is reachable from `p` by decoding whole runes: the positions the search loop visits (Go's
 `regexp` also steps rune by rune, so a match never starts inside a valid multi-byte sequence). -/
 inductive RuneReach : Pos → Pos → Prop
